@@ -21,10 +21,11 @@ pub enum Stack {
     BufSmall(usize),
     /// std LineWriter, default capacity — what `std::io::stdout()` is
     Line,
-    /// FML's NamedSink { sink: Box<BufWriter<fd>> } — the shipped `-o FILE` object
-    NamedFile,
-    /// FML's NamedSink { sink: Box<LineWriter<fd>> } — the shipped stdout object's behaviour
-    NamedConsole,
+    /// Box<dyn Write> over BufWriter<fd> — the shape of the shipped `-o FILE` sink (FML's NamedSink forwards write/flush to
+    /// exactly such a box; the struct itself is private CLI plumbing and is exercised for real at the process level)
+    BoxedBuf,
+    /// Box<dyn Write> over LineWriter<fd> — the shape of the shipped stdout sink
+    BoxedLine,
 }
 
 impl Stack {
@@ -34,8 +35,8 @@ impl Stack {
             Stack::Buf => "BufWriter".into(),
             Stack::BufSmall(n) => format!("BufWriter:{}", n),
             Stack::Line => "LineWriter".into(),
-            Stack::NamedFile => "NamedSink(BufWriter)".into(),
-            Stack::NamedConsole => "NamedSink(LineWriter)".into(),
+            Stack::BoxedBuf => "Box<dyn Write>(BufWriter)".into(),
+            Stack::BoxedLine => "Box<dyn Write>(LineWriter)".into(),
         }
     }
     pub fn from_name(s: &str) -> Option<Stack> {
@@ -43,15 +44,15 @@ impl Stack {
             "raw_fd" => Stack::Raw,
             "BufWriter" => Stack::Buf,
             "LineWriter" => Stack::Line,
-            "NamedSink(BufWriter)" => Stack::NamedFile,
-            "NamedSink(LineWriter)" => Stack::NamedConsole,
+            "Box<dyn Write>(BufWriter)" | "NamedSink(BufWriter)" => Stack::BoxedBuf,
+            "Box<dyn Write>(LineWriter)" | "NamedSink(LineWriter)" => Stack::BoxedLine,
             other => {
                 let n = other.strip_prefix("BufWriter:")?.parse().ok()?;
                 Stack::BufSmall(n)
             }
         })
     }
-    pub const ALL: [Stack; 6] = [Stack::Raw, Stack::Buf, Stack::BufSmall(16), Stack::Line, Stack::NamedFile, Stack::NamedConsole];
+    pub const ALL: [Stack; 6] = [Stack::Raw, Stack::Buf, Stack::BufSmall(16), Stack::Line, Stack::BoxedBuf, Stack::BoxedLine];
 }
 
 #[derive(Clone, Copy, Debug, PartialEq, Eq, Hash)]
@@ -136,13 +137,13 @@ pub fn write_under_plan(program: &Program, stack: Stack, teardown: Teardown, pla
             let s = do_serialize(program, &mut w);
             (s, finish(w, teardown))
         }
-        Stack::NamedFile => {
-            let mut w = crate::NamedSink { name: crate::Stream::File("sim.bc".to_string()), sink: Box::new(BufWriter::new(fd.clone())) };
+        Stack::BoxedBuf => {
+            let mut w: Box<dyn Write> = Box::new(BufWriter::new(fd.clone()));
             let s = do_serialize(program, &mut w);
             (s, finish(w, teardown))
         }
-        Stack::NamedConsole => {
-            let mut w = crate::NamedSink { name: crate::Stream::Console, sink: Box::new(LineWriter::new(fd.clone())) };
+        Stack::BoxedLine => {
+            let mut w: Box<dyn Write> = Box::new(LineWriter::new(fd.clone()));
             let s = do_serialize(program, &mut w);
             (s, finish(w, teardown))
         }
